@@ -322,20 +322,27 @@ class Scenario:
     """reference + variants + samples with true diploid haplotypes + error-free reads"""
 
     def __init__(self, rng, n_contigs=1, contig_len=(600, 1500), n_variants=(3, 12), kinds=("snv",), samples=("S1",),
-                 depth=(2, 8), read_len=(80, 400), min_gap=25, het_prob=0.8, paired_prob=0.0):
+                 depth=(2, 8), read_len=(80, 400), min_gap=25, het_prob=0.8, paired_prob=0.0, given=None):
+        """given: optional {contig: (sequence, [Variant sorted by pos])} to use instead of a random reference"""
         self.rng = rng
         self.contigs = {}
         self.variants = {}       # chrom -> [Variant]
         self.samples = list(samples)
         self.haps = {}           # (sample, chrom) -> (alleles0, alleles1)
         self.reads = []          # dicts for write_bam, plus truth: sample, hap, covered (variant indices)
-        for ci in range(n_contigs):
-            name = f"chr{ci + 1}"
-            L = rng.randrange(*contig_len)
-            seq = random_seq(rng, L)
-            self.contigs[name] = seq
-            nv = rng.randrange(n_variants[0], n_variants[1] + 1)
-            self.variants[name] = make_variants(rng, name, seq, nv, kinds=kinds, min_gap=min_gap)
+        for ci in range(n_contigs if given is None else len(given)):
+            if given is None:
+                name = f"chr{ci + 1}"
+                L = rng.randrange(*contig_len)
+                seq = random_seq(rng, L)
+                self.contigs[name] = seq
+                nv = rng.randrange(n_variants[0], n_variants[1] + 1)
+                self.variants[name] = make_variants(rng, name, seq, nv, kinds=kinds, min_gap=min_gap)
+            else:
+                name = list(given)[ci]
+                seq, vs = given[name]
+                self.contigs[name] = seq
+                self.variants[name] = list(vs)
             for s in self.samples:
                 h0, h1 = [], []
                 for _ in self.variants[name]:
